@@ -470,6 +470,35 @@ def r20e(ctx):
                    f"a link, a line break or a long text the two outlines differ, although the property asks for the same outline from both")
 
 
+def r20g(ctx):
+    """There is one index body.
+
+    fill() empties the index through `self.body = None` and then reads `self.body` back; the getter returns the first text:index-body.
+    Both work only while the setter replaces: whatever is assigned, the body that was there is removed first.  A setter that keeps the old
+    body when a new one is given leaves two; fill() then cleans one and fills the other, and the entries of the kept one stay.
+    Rule: in the TOC.body setter the deletion of the current body is on every normal path, guarded by nothing but the existence of that
+    body.
+    """
+    from ..paths import cfg_of, node_of, structural_guards
+    repo = ctx.repo
+    ctx.rule("R20g", "the TOC.body setter removes the previous index body whatever is assigned", floor=1)
+    f = repo.func("TOC.body", "setter")
+    par = [a.arg for a in f.node.args.args if a.arg != "self"][0]
+    dels = [c for c in walk_no_nested(f.node) if isinstance(c, ast.Call) and call_name(c) == "delete"]
+    if not dels:
+        raise AnalysisError("R20g: the TOC.body setter no longer deletes anything")
+    bad = []
+    for d in dels:
+        for t, _pol in structural_guards(d, stop=f.node):
+            if any(isinstance(x, ast.Name) and x.id == par for x in ast.walk(t)):
+                bad.append((d, t))
+    ctx.instance("R20g", f"{f.file}:{f.ident}", "old body deleted independently of the value assigned", ok=not bad, nontrivial=True, line=f.node.lineno)
+    for d, t in bad[:1]:
+        ctx.report("R20g", f, d, f"{norm(d, 40)} only under `{norm(t, 40)}`",
+                   f"the TOC.body setter removes the previous index body only when `{norm(t, 40)}`: assigning a body leaves two text:index-body elements, fill() empties one and "
+                   f"fills the other, so stale entries and a second title remain and two fills in a row give different results")
+
+
 def r20f(ctx):
     """The outline level that fill() filters by is the one that was requested.
 
@@ -519,6 +548,7 @@ def run(ctx):
     r20d(ctx)
     r20e(ctx)
     r20f(ctx)
+    r20g(ctx)
     # fill() filters by self.outline_level: that property must read this TOC's own source element, not the first one of the document (rule shared with C12)
     from ..registry import build_registry
     from .c12 import r12k
@@ -530,6 +560,9 @@ from ..selftest import Seed, unparse_seed  # noqa: E402
 _TOC = "src/odfdo/toc.py"
 _HS = "src/odfdo/scripts/headers.py"
 SEEDS = [
+    Seed("TOC.body setter keeps the old body when a new one is given", "fault", _TOC,
+         "        old_body = self.body\n        if old_body is not None:\n            self.delete(old_body)\n        if body is None:\n            body = Element.from_tag(\"text:index-body\")",
+         "        if body is None:\n            old_body = self.body\n            if old_body is not None:\n                self.delete(old_body)\n            body = Element.from_tag(\"text:index-body\")", "R20g"),
     Seed("outline_level setter clamps the level to 1..10", "fault", _TOC, '        source.set_attribute("text:outline-level", str(level))', '        level = min(max(int(level), 1), 10)\n        source.set_attribute("text:outline-level", str(level))', "R20f"),
     Seed("outline_level setter returns early for level 0", "fault", _TOC, "    def outline_level(self, level: int) -> None:\n        source = self.get_element(\"text:table-of-content-source\")\n        if source is None:\n            source = Element.from_tag",
          "    def outline_level(self, level: int) -> None:\n        if not level:\n            return\n        source = self.get_element(\"text:table-of-content-source\")\n        if source is None:\n            source = Element.from_tag", "R20f"),
